@@ -21,6 +21,7 @@ package main
 // `(Iface).Method` for interface-level contracts.
 
 import (
+	"regexp"
 	"bufio"
 	"fmt"
 	"os"
@@ -38,6 +39,9 @@ type Clause struct {
 	Line int
 	File string
 	Name string // optional clause label
+	// ghostdef: this ensures clause defines a ghost field pointwise at return
+	GhostOwner *Spec
+	GhostField string
 }
 
 type ParamDecl struct {
@@ -417,12 +421,36 @@ func (cs *ContractSet) loadFile(pkg, file string) error {
 			} else {
 				cur.Ensures = append(cur.Ensures, cl)
 			}
+		case "ghostdef":
+			// ghostdef OWNER.$f[x] := EXPR   -- at return the ghost set/map OWNER.$f is
+			// redefined pointwise: for all x, OWNER.$f[x] == EXPR (EXPR may use old()).
+			// For callers it reads: modifies OWNER.$f, ensures forall x :: OWNER.$f[x] == EXPR.
+			if cur == nil {
+				return fail(fmt.Errorf("ghostdef outside contract"))
+			}
+			parts := strings.SplitN(rest, ":=", 2)
+			gm := regexp.MustCompile(`^(.+)\.(\$\w+)\[(\w+)\]$`).FindStringSubmatch(strings.TrimSpace(parts[0]))
+			if len(parts) != 2 || gm == nil {
+				return fail(fmt.Errorf("ghostdef: want OWNER.$f[x] := EXPR"))
+			}
+			owner, err := ParseSpec(gm[1])
+			if err != nil {
+				return fail(err)
+			}
+			text := fmt.Sprintf("forall %s :: (%s.%s[%s]) == (%s)", gm[3], gm[1], gm[2], gm[3], strings.TrimSpace(parts[1]))
+			ex, err := ParseSpec(text)
+			if err != nil {
+				return fail(err)
+			}
+			cur.Ensures = append(cur.Ensures, &Clause{Kind: "ensures", Line: rl.line, File: file, Text: "ghostdef " + rest, Expr: ex, GhostOwner: owner, GhostField: gm[2]})
+			cur.HasMod = cur.HasMod || cur.Trusted
+			cur.Modifies = append(cur.Modifies, gm[1]+"."+gm[2])
 		case "modifies":
 			if cur == nil {
 				return fail(fmt.Errorf("modifies outside contract"))
 			}
 			cur.HasMod = true
-			for _, m := range strings.Split(rest, ",") {
+			for _, m := range splitTopLevel(rest) {
 				m = strings.TrimSpace(m)
 				if m != "" && m != "nothing" {
 					cur.Modifies = append(cur.Modifies, m)
@@ -477,4 +505,24 @@ func (cs *ContractSet) loadFile(pkg, file string) error {
 		}
 	}
 	return nil
+}
+
+// splitTopLevel splits at commas that are not inside parentheses or brackets.
+func splitTopLevel(t string) []string {
+	var out []string
+	depth, start := 0, 0
+	for i, ch := range t {
+		switch ch {
+		case '(', '[':
+			depth++
+		case ')', ']':
+			depth--
+		case ',':
+			if depth == 0 {
+				out = append(out, t[start:i])
+				start = i + 1
+			}
+		}
+	}
+	return append(out, t[start:])
 }
